@@ -1069,3 +1069,255 @@ def c17(run):
             if not a.startswith(exp + " | "):
                 run.violation("iban.bank for an IBAN built around a listed bank", [cc, code, i], a, exp,
                               "listed bank is found again from its IBAN", kind="config", op=f)
+
+
+# --------------------------------------------------------------------------- C08
+def expected_generate(S, cc, bank, account, branch):
+    """The property's reading of IBAN.generate: ('ok', {field: value}) or ('err', class or None)."""
+    spec = S.table.get(cc)
+    if spec is None:
+        return ("err", "InvalidCountryCode")
+    if "positions" not in spec:
+        return ("err", "SchwiftyException")
+    pos = spec["positions"]
+    w = {k: (pos[k][1] - pos[k][0]) if k in pos else 0 for k in ("bank_code", "branch_code", "account_code")}
+    c = {"bank_code": common.clean(bank), "branch_code": common.clean(branch), "account_code": common.clean(account)}
+    padded = {k: v.zfill(w[k]) for k, v in c.items()}
+    if w["branch_code"] > 0 and not c["branch_code"] and len(padded["bank_code"]) == w["bank_code"] + w["branch_code"]:
+        padded["branch_code"] = padded["bank_code"][w["bank_code"]:]
+        padded["bank_code"] = padded["bank_code"][:w["bank_code"]]
+    for k, cls in (("bank_code", "InvalidBankCode"), ("branch_code", "InvalidBranchCode"),
+                   ("account_code", "InvalidAccountCode")):
+        if len(padded[k]) > w[k]:
+            return ("err", cls)
+    return ("ok", padded)
+
+
+@prop("C08",
+      rule="every country with published positions x component strings of length 0..width+3 drawn from the "
+           "field's class and from a wild alphabet (signs, letters in numeric fields, Unicode digits, whitespace, "
+           "lower case), combined-width bank codes with and without an explicit branch code, unknown countries; "
+           "read-back of every supplied component, precise error class for over-long values, no foreign "
+           "exception; non-trivial = distinct (country, components)",
+      note="padding, placement and error-class theorems proved for the model; the end-to-end glue and totality of "
+           "generate() are checked dynamically")
+def c08(run):
+    S = Streams(run.seed * 1000 + 8)
+    r = S.r
+    ops, meta = [], []
+    per = run.scale(28, 600)
+    countries = list(S.countries) + ["XX", "de", ""]
+    for cc in countries:
+        spec = S.table.get(cc, {})
+        pos = spec.get("positions", {})
+        items = S.spec_items(cc) if cc in S.table else []
+        cls = [k for n, k in items for _ in range(n)]
+
+        def draw(field, n, wild):
+            if wild:
+                pool = DIGITS + "Aaz+-_ \t٨" + r.choice(S.wide)
+            else:
+                rng = pos.get(field)
+                ks = cls[rng[0]:rng[1]] if rng else ["n"]
+                pool = None
+            out = []
+            for i in range(n):
+                if pool:
+                    out.append(r.choice(pool))
+                else:
+                    k = ks[i % len(ks)] if ks else "n"
+                    out.append(S.draw_class(k, lower_ok=True))
+            return "".join(out)
+        w = {k: (pos[k][1] - pos[k][0]) if k in pos else 0 for k in ("bank_code", "branch_code", "account_code")}
+        for j in range(per):
+            wild = r.random() < 0.25
+            vals = {}
+            for k in ("bank_code", "account_code", "branch_code"):
+                mode = r.random()
+                if mode < 0.15:
+                    n = 0
+                elif mode < 0.55:
+                    n = w[k]
+                elif mode < 0.8:
+                    n = r.randint(0, w[k])
+                else:
+                    n = w[k] + r.randint(1, 3)
+                vals[k] = draw(k, n, wild)
+            if j % 7 == 0 and w["branch_code"]:      # combined-width bank code
+                vals["bank_code"] = draw("bank_code", w["bank_code"], False) + draw("branch_code", w["branch_code"], False)
+                if j % 14 == 0:
+                    vals["branch_code"] = ""
+                elif j % 21 == 0:                      # explicit branch made of zeros / blanks
+                    vals["branch_code"] = r.choice(["0" * w["branch_code"], "0", "00", " ", "0 0"])
+            if j % 11 == 0:
+                k = r.choice(["bank_code", "branch_code", "account_code"])
+                vals[k] = r.choice(["0" * w[k], "0", "", "0" * (w[k] + 1), " "])
+            ops.append(["iban.generate", hx(cc), hx(vals["bank_code"]), hx(vals["account_code"]), hx(vals["branch_code"])])
+            meta.append((cc, vals))
+    reals, _ = run.correspond("generate", ops)
+    for f, (cc, vals), a in zip(ops, meta, reals):
+        args = [cc, vals["bank_code"], vals["account_code"], vals["branch_code"]]
+        if a.startswith("crash"):
+            run.violation("IBAN.generate", args, a, "a valid IBAN or a library error", "foreign exception", op=f,
+                          expected_line="err")
+            continue
+        exp = expected_generate(S, cc, vals["bank_code"], vals["account_code"], vals["branch_code"])
+        if exp[0] == "err":
+            if a.startswith("ok ") or (exp[1] and a != "err " + exp[1]):
+                run.violation("IBAN.generate", args, a, "err " + str(exp[1]), "error class for this input", op=f,
+                              expected_line="err " + str(exp[1]))
+            continue
+        if a.startswith("ok "):
+            i = unhx(a[3:])
+            pos = S.table[cc]["positions"]
+            b = i[4:]
+            if real(["iban.new", hx(i), "F", "F"]) != "ok " + hx(i):
+                run.violation("IBAN.generate", args, a, "a valid IBAN", "result is not accepted", op=f)
+            for k, v in exp[1].items():
+                got = b[pos[k][0]:pos[k][1]] if k in pos else ""
+                if got != v:
+                    run.violation("IBAN.generate", args, f"{k} field holds {got!r}", f"{v!r}",
+                                  "supplied component (cleaned, zero-padded) must sit at its published position",
+                                  op=f)
+
+
+# --------------------------------------------------------------------------- C09
+@prop("C09",
+      rule="for the 19 computing countries: IBANs generated from random conforming components and seeded "
+           "random draws are validated nationally; the same component text is also built under several "
+           "countries in varying order; for every country with positions: components are read off nationally "
+           "valid IBANs and the BBAN is rebuilt and compared outside filler positions; non-trivial = distinct IBAN",
+      note="compute -> validate proved per algorithm for the model; end-to-end agreement checked dynamically")
+def c09(run):
+    import natref
+    from random import Random
+    from realops import COMPONENT_ORDER, IBAN, BBAN, exceptions, registry_lines
+    S = Streams(run.seed * 1000 + 9)
+    r = S.r
+    computing = [c for c in sorted(natref.NATIONAL) if c not in ("CZ", "SK", "IS")]
+    ops = []
+    per = run.scale(25, 600)
+    digit_pool = {}
+    for cc in computing:
+        pos = S.table[cc]["positions"]
+        for j in range(per):
+            b = S.bban(cc).upper()
+            comps = {k: b[pos[k][0]:pos[k][1]] for k in ("bank_code", "branch_code", "account_code") if k in pos}
+            digit_pool.setdefault(len(b), []).append(comps)
+            ops.append(["iban.generate", hx(cc), hx(comps.get("bank_code", "")), hx(comps.get("account_code", "")),
+                        hx(comps.get("branch_code", ""))])
+    # same component texts under several countries, varying order (no cross-country leakage)
+    for _ in range(run.scale(40, 800)):
+        comps = r.choice(r.choice(list(digit_pool.values())))
+        order = r.sample(computing, 5)
+        for cc in order + order[::-1]:
+            ops.append(["iban.generate", hx(cc), hx(comps.get("bank_code", "")), hx(comps.get("account_code", "")),
+                        hx(comps.get("branch_code", ""))])
+    # one digit string cut according to each country's field widths (equal joined text), and empty values
+    widths = {}
+    for cc in computing:
+        pos = S.table[cc]["positions"]
+        widths[cc] = [(k, pos[k][1] - pos[k][0]) for k in ("bank_code", "branch_code", "account_code") if k in pos]
+    for _ in range(run.scale(30, 600)):
+        D = "".join(r.choice(DIGITS) for _ in range(30))
+        order = r.sample(computing, len(computing))
+        for cc in order + order[::-1]:
+            comps, p = {}, 0
+            for k, w in widths[cc]:
+                comps[k] = D[p:p + w]
+                p += w
+            ops.append(["iban.generate", hx(cc), hx(comps.get("bank_code", "")), hx(comps.get("account_code", "")),
+                        hx(comps.get("branch_code", ""))])
+    for cc in computing + computing[::-1]:
+        ops.append(["iban.generate", hx(cc), "-", "-", "-"])
+    reals, _ = run.correspond("generate", ops)
+    nat_ops = []
+    for f, a in zip(ops, reals):
+        if a.startswith("ok "):
+            nat_ops.append(["iban.validate", a[3:], "T"])
+    # seeded random draws
+    for cc in computing:
+        for seed in range(run.scale(6, 100)):
+            try:
+                i = str(IBAN.random(cc, random=Random(run.seed * 7919 + seed)))
+            except exceptions.GenerateRandomOverflowError:
+                continue
+            except Exception as e:  # noqa: BLE001
+                run.violation("IBAN.random", [cc, seed], type(e).__name__, "an IBAN or the overflow error",
+                              "random draw", kind="input")
+                continue
+            nat_ops.append(["iban.validate", hx(i), "T"])
+    ops2 = []
+    cur = None
+    for f in sorted(nat_ops, key=lambda f: unhx(f[1])[:2]):
+        cc = unhx(f[1])[:2]
+        if cc != cur:
+            ops2 += registry_lines(S.banks_of(cc))
+            cur = cc
+        ops2.append(f)
+    reals2, _ = run.correspond("validate generated", ops2)
+    for f, a in zip(ops2, reals2):
+        if f[0] == "iban.validate" and a != "ok T":
+            run.violation("IBAN.generate(...).validate(validate_bban=True)", [unhx(f[1])], a, "ok T",
+                          "computed national check digits must validate", op=f)
+    # parse -> rebuild
+    ops3, meta3 = [], []
+    for cc in S.countries:
+        spec = S.table[cc]
+        if "positions" not in spec:
+            continue
+        for _ in range(run.scale(4, 80)):
+            b = S.bban_with_bank(cc).upper() if r.random() < 0.5 else S.bban(cc).upper()
+            if cc in natref.NATIONAL:
+                b = natref.make_valid(cc, b, r) or b
+                if not natref.NATIONAL[cc](b):
+                    continue
+            kv = []
+            covered = set()
+            for k in COMPONENT_ORDER:
+                if k in spec["positions"]:
+                    s_, e_ = spec["positions"][k]
+                    kv.append(k + "=" + hx(b[s_:e_]))
+                    covered.update(range(s_, e_))
+            ops3.append(["bban.from_components", hx(cc)] + kv)
+            meta3.append((cc, b, covered))
+    # banks outside DE whose entry names a method: whatever the library accepts nationally must rebuild
+    for e in S.banks:
+        cc = e["country_code"]
+        if "checksum_algo" in e and cc != "DE" and cc in S.table and "positions" in S.table[cc] and e["bank_code"]:
+            spec = S.table[cc]
+            ops3 += registry_lines(S.banks_of(cc))
+            meta3 += [None] * (len(ops3) - len(meta3))
+            for _ in range(12):
+                b = list(S.bban(cc).upper())
+                p = 0
+                for comp in spec.get("bic_lookup_components", ["bank_code"]):
+                    s_, e_ = spec["positions"].get(comp, [0, 0])
+                    b[s_:e_] = list(e["bank_code"][p:p + e_ - s_].ljust(e_ - s_, "0"))
+                    p += e_ - s_
+                b = "".join(b)[: spec["bban_length"]]
+                if real(["bban.national", hx(cc), hx(b)]) != "ok T":
+                    continue
+                kv, covered = [], set()
+                for k in COMPONENT_ORDER:
+                    if k in spec["positions"]:
+                        s_, e_ = spec["positions"][k]
+                        kv.append(k + "=" + hx(b[s_:e_]))
+                        covered.update(range(s_, e_))
+                ops3.append(["bban.from_components", hx(cc)] + kv)
+                meta3.append((cc, b, covered))
+    reals3, _ = run.correspond("rebuild", ops3)
+    for f, m3, a in zip(ops3, meta3, reals3):
+        if m3 is None:
+            continue
+        cc, b, covered = m3
+        if cc == "DE":
+            continue
+        if not a.startswith("ok "):
+            run.violation("BBAN.from_components(components of a valid IBAN)", [cc, b], a, "the same BBAN",
+                          "parse -> rebuild", op=f)
+            continue
+        nb = unhx(a[3:])
+        if len(nb) != len(b) or any(nb[p] != b[p] for p in covered):
+            run.violation("BBAN.from_components(components of a valid IBAN)", [cc, b], nb, b,
+                          "rebuilt BBAN differs at a position covered by a component", op=f)
